@@ -40,6 +40,8 @@ type Config struct {
 	MaxPoint  int     // UserPlan.MaxPointSize
 	NoExtras  bool    // no unindexed fields
 	NIDs      int     // size of the id universe (0 = MaxID)
+	PNoData   float64 // share of inserted points that carry no data bytes at all
+	NoUpdates bool    // write histories of insert and delete batches only
 	VecRange  int     // vector components are drawn from -VecRange..VecRange (0 = 3)
 	VecLine   bool    // components after the first are drawn from 0..6 only
 	Quantised bool    // a trained quantiser decides the distances: only pair comparisons are judged
@@ -162,6 +164,8 @@ var TextPool = []string{
 var TextQueries = []string{
 	"fox", "quick fox", "brown dog", "the", "the fox", "QUICK", "fox fox", "café", "gandalf wizard hello",
 	"unknownterm", "dog lazy unknownterm", "!!!", "a an the", "hello world", "brown", "quick brown fox dog",
+	// repeated query terms, adjacent and apart, in any case and with stop words between
+	"fox dog fox", "Quick the brown QUICK", "dog fox brown dog fox", "wizard gandalf wizard unknownterm wizard", "fox, the FOX",
 }
 
 // ---------------------------------------------------------------------------
@@ -376,7 +380,17 @@ func (g *Gen) DocFrom(forUpdate bool, pInc float64, cur map[string]any) GenDoc {
 		}
 		byFld[p.Fld()] = append(byFld[p.Fld()], p)
 	}
+	// a narrow update names a single top-level field (the others must stay as
+	// they are, in the document and in every index)
+	only := ""
+	if forUpdate && len(flds) > 0 && g.R.Intn(4) == 0 {
+		cands := append(append([]string{}, flds...), "x")
+		only = cands[g.R.Intn(len(cands))]
+	}
 	for _, f := range flds {
+		if only != "" && f != only {
+			continue
+		}
 		props := byFld[f]
 		if forUpdate && g.R.Float64() < 0.2 {
 			real[f] = "_delete"
@@ -438,6 +452,9 @@ func (g *Gen) DocFrom(forUpdate bool, pInc float64, cur map[string]any) GenDoc {
 	}
 	if !g.Cfg.NoExtras {
 		for _, f := range []string{"x", "y"} {
+			if only != "" && f != only {
+				continue
+			}
 			if g.R.Float64() < 0.4 {
 				if g.R.Float64() < 0.25 {
 					// on an update the marker removes the field; an insert
@@ -451,7 +468,7 @@ func (g *Gen) DocFrom(forUpdate bool, pInc float64, cur map[string]any) GenDoc {
 			}
 		}
 		for _, f := range []string{"big1", "big2"} {
-			if g.R.Float64() < 0.12 && !g.Cfg.Mem {
+			if only == "" && g.R.Float64() < 0.12 && !g.Cfg.Mem {
 				if forUpdate && g.R.Float64() < 0.3 {
 					real[f] = "_delete"
 					get(f).del = true
